@@ -171,7 +171,7 @@ func baseSet(name string, replicas int32, image string) *apps.StatefulSet {
 					VolumeMounts: []v1.VolumeMount{{Name: "data", MountPath: "/data"}}}}},
 			},
 			// the claim template carries labels of its own: getPersistentVolumeClaims adds the selector's labels to (a copy of) that map
-			VolumeClaimTemplates: []v1.PersistentVolumeClaim{{ObjectMeta: metav1.ObjectMeta{Name: "data", Labels: map[string]string{"tier": "data"}}}},
+			VolumeClaimTemplates: []v1.PersistentVolumeClaim{{ObjectMeta: metav1.ObjectMeta{Name: "data", Namespace: "tmpl-ns", Labels: map[string]string{"tier": "data"}}}},
 		},
 	}
 }
